@@ -672,7 +672,7 @@ class Graph:
         """Run all build-time validations."""
         # Note: Duplicate node names caught in _build_nodes_dict()
         # Note: Duplicate outputs caught in validate_output_conflicts()
-        validate_graph(self._nodes, self._nx_graph, self.name, self._strict_types)
+        validate_graph(self._nodes, self._nx_graph, self.name, self._strict_types, explicit_edges=self._explicit_edges is not None)
 
     def as_node(self, *, name: str | None = None) -> GraphNode:
         """Wrap graph as node for composition. Returns new GraphNode.
